@@ -6,6 +6,7 @@ import (
 	"io"
 	"math"
 	"strings"
+	"unicode/utf8"
 
 	"reflect"
 	"regexp"
@@ -200,12 +201,12 @@ func (t *stringType) IsAssignable(o px.Type, g px.Guard) bool {
 func (t *scStringType) IsAssignable(o px.Type, g px.Guard) bool {
 	switch o := o.(type) {
 	case *vcStringType:
-		return t.size.IsInstance3(len(o.value))
+		return t.size.IsInstance3(utf8.RuneCountInString(o.value))
 	case *scStringType:
 		return t.size.IsAssignable(o.size, g)
 	case *EnumType:
 		for _, str := range o.values {
-			if !t.size.IsInstance3(len(string(str))) {
+			if !t.size.IsInstance3(utf8.RuneCountInString(str)) {
 				return false
 			}
 		}
@@ -228,7 +229,7 @@ func (t *stringType) IsInstance(o px.Value, g px.Guard) bool {
 
 func (t *scStringType) IsInstance(o px.Value, g px.Guard) bool {
 	str, ok := o.(stringValue)
-	return ok && t.size.IsInstance3(len(string(str)))
+	return ok && t.size.IsInstance3(utf8.RuneCountInString(string(str)))
 }
 
 func (t *vcStringType) IsInstance(o px.Value, g px.Guard) bool {
